@@ -382,3 +382,16 @@ Theorem C05_hoisted_reads_pin_variable_early_refuted :
   pcbu (run_sketch kf_real p 1) = false /\ pins_tracked kf_real p 1 = false.
 Proof. exact hoisted_refuted. Qed.
 Print Assumptions C05_hoisted_reads_pin_variable_early_refuted.
+
+(* loop() carries no configuration request (loop-top declarations are configured in the hoisted block), so what a pass
+   forgets is forgotten after the first pass: the guard evaluated for TWO passes decides it for every N *)
+Theorem C05_pin_guard_two_passes_decide_all : forall kf p n,
+  pins_tracked kf p 2 = true -> pins_tracked kf p n = true.
+Proof. exact pins_tracked_two_all. Qed.
+Print Assumptions C05_pin_guard_two_passes_decide_all.
+
+(* ... hence configured-before-use of the executed sketch for all N >= 0 passes from one finite check *)
+Theorem C05_pin_expr_configured_before_use_all_passes_partial : forall kf p,
+  pins_tracked kf p 2 = true -> forall n, pcbu (run_sketch kf p n) = true.
+Proof. exact pins_cbu_all_passes. Qed.
+Print Assumptions C05_pin_expr_configured_before_use_all_passes_partial.
